@@ -306,7 +306,14 @@ func (s Session) coq() string {
 			probe(o.Body)
 		}
 	}
-	return lib.Tuple(hxs(s.API), lib.List(destTab), lib.List(streamTab), lib.List(items), lib.List(probes))
+	// whether the real json.Unmarshal into vw.Command accepted each command sent
+	decoded := []string{}
+	for _, it := range s.Items {
+		if it.Kind == "cmd" {
+			decoded = append(decoded, lib.Tuple(hx(it.Msg), lib.Bool(decodeCmd(it.Msg).OK)))
+		}
+	}
+	return lib.Tuple(hxs(s.API), lib.List(destTab), lib.List(streamTab), lib.List(items), lib.List(probes), lib.List(decoded))
 }
 
 // ---------------------------------------------------------------- the property's own oracle
